@@ -125,7 +125,7 @@ RULE_POOL = [
     ('Long Tag', 'contains("AMZN MKTP US")', '', 'Tagged Sub', '', ['us'], [], [], None),
 ]
 SUPP_RULES = [
-    ('Ordered', 'contains("AMZN") and any(r.amount == amount for r in orders)', 'Shopping', 'Ordered', 'Amazon Orders', [], [], [], None),
+    ('Ordered', 'contains("AMZN") and any(r.amount == amount for r in orders)', 'Shopping', 'Ordered', 'Amazon Ordered', [], [], [], None),
     ('Ordered Count', 'len([r for r in orders if r.amount == amount]) > 0', 'Shopping', 'Matched', '', ['matched'], [], [], None),
 ]
 CSV_POOL = [
